@@ -24,10 +24,27 @@ BREAKERS = ['"', "%", "(", ")", "[", "]", "=", "/", "\r", "\n", "\r\n", "<", ">"
             "\x0b", "\x0c", "\x1c", "\x1d", "\x1e", "\x85", "\u2028", "\u2029", "\xa0", "\u3000", "\t"]
 
 
+LINE_SEPS = ["\x0b", "\x0c", "\x1c", "\x1d", "\x1e", "\x85", "\u2028", "\u2029", "\r", "\n"]
+
+
 def corrupt(rng, text):
     k = rng.randrange(len(text) + 1)
-    op = rng.randrange(4)
+    op = rng.randrange(6)
     c = rng.choice(BREAKERS)
+    if op >= 4:
+        # around a line end (where a too generous line splitter would hide the damage), or a bare CR / LF inside a token
+        ends = [i for i, ch in enumerate(text) if ch in "\r\n"]
+        sep = rng.choice(LINE_SEPS)
+        if op == 4 and ends:
+            i = rng.choice(ends)
+            how = rng.randrange(3)
+            if how == 0:
+                j = i + 1 if text[i:i + 2] != "\r\n" else i + 2
+                return text[:i] + sep + text[j:]
+            if how == 1:
+                return text[:i] + sep + text[i:]
+            return text[:i + 1] + sep + text[i + 1:]
+        return text[:k] + sep + text[k:]
     if op == 0 and k < len(text):
         return text[:k] + text[k + 1:]
     if op == 1:
@@ -48,6 +65,8 @@ def strict_norm(text):
 def _load_chunk(args):
     seed, n = args
     P = lib.import_repo()
+    import importlib
+    MISC = importlib.import_module("abnf.grammars.misc")
     rng = random.Random(seed)
     g = c04.Gen(rng)
     meta = [P.ABNFGrammarRule("rulelist"), P.ABNFGrammarRule("rule")]
@@ -58,7 +77,7 @@ def _load_chunk(args):
         nrules = rng.randint(1, 2)
         r = c04.Render(rng, plain=rng.random() < 0.5)
         texts = [r.rule(rng.choice(c04.NAMES), "=", g.alt(1)) for _ in range(nrules)]
-        route = rng.choice(["create", "load_strict", "load_nonstrict"])
+        route = rng.choice(["create", "load_strict", "load_nonstrict", "load_deco"])
         if route == "create":
             text = texts[0]
             if rng.random() < 0.3:
@@ -67,7 +86,7 @@ def _load_chunk(args):
             text = "\r\n".join(texts) + "\r\n"
         for _ in range(rng.randint(0, 2)):
             text = corrupt(rng, text)
-        if route == "load_strict" and rng.random() < 0.5:
+        if route in ("load_strict", "load_deco") and rng.random() < 0.5:
             text = text.replace("\r\n", "\n")
         if not text:
             text = "@"
@@ -75,7 +94,7 @@ def _load_chunk(args):
         if route == "create":
             seen = text if text[-2:] == "\r\n" else text + "\r\n"
             q = "parseall 1"
-        elif route == "load_strict":
+        elif route in ("load_strict", "load_deco"):
             seen = strict_norm(text)
             q = "parseall 0"
         else:
@@ -96,6 +115,9 @@ def _load_chunk(args):
                 cls.create(text)
             elif route == "load_strict":
                 cls.load_grammar(text)
+            elif route == "load_deco":
+                cls.grammar = text
+                MISC.load_grammar_rulelist()(cls)
             else:
                 cls.load_grammar(text, strict=False)
             outcome = "ok"
